@@ -537,3 +537,44 @@ Proof.
   - unfold ascii. repeat constructor.
   - vm_compute. reflexivity.
 Qed.
+
+(* ---- routing statements for the implementation: only where no registered descriptor is judged by the lenient
+   dialect.  [route] reads Unspec as "not matched"; the version library accepts e.g. "v1.0.0" and "1.0", so Go DOES route
+   "/a/v1.0.0" to a handler a 1.0.0.  The statements below carry the premise that keeps them inside the claim. *)
+Definition specified (ds : list desc) (incoming : bytes) : Prop :=
+  forall d, In d ds -> match_id incoming (fst d) (snd d) <> Unspec.
+
+Example lenient_route_none :
+  route [(bos "a", bos "1.0.0")] (bos "/a/v1.0.0") = None /\
+  match_id (bos "/a/v1.0.0") (bos "a") (bos "1.0.0") = Unspec /\
+  ~ specified [(bos "a", bos "1.0.0")] (bos "/a/v1.0.0").
+Proof.
+  split; [vm_compute; reflexivity|]. split; [vm_compute; reflexivity|].
+  intros H. apply (H (bos "a", bos "1.0.0")); [left; reflexivity|]. vm_compute. reflexivity.
+Qed.
+
+Theorem route_specified_nodup ds incoming k d :
+  NoDup (map fst ds) -> specified ds incoming ->
+  (route ds incoming = Some (k, d) <->
+   1 <= k /\ nth_error ds (N.to_nat (k - 1)) = Some d /\ match_id incoming (fst d) (snd d) = Match).
+Proof. intros Hnd _. apply route_spec_nodup. exact Hnd. Qed.
+
+(* with the premise, "no handler" means every descriptor REFUSES the identifier (NoMatch), not merely "is not Match" *)
+Theorem route_none_specified_nodup ds incoming :
+  NoDup (map fst ds) -> specified ds incoming ->
+  (route ds incoming = None <-> forall d, In d ds -> match_id incoming (fst d) (snd d) = NoMatch).
+Proof.
+  intros Hnd Hs. rewrite route_none_nodup by exact Hnd. split; intros H d Hd.
+  - specialize (H d Hd). specialize (Hs d Hd). destruct (match_id incoming (fst d) (snd d)); congruence.
+  - rewrite (H d Hd). discriminate.
+Qed.
+
+Theorem route_specified ds incoming h :
+  specified ds incoming ->
+  (route ds incoming = Some h <->
+   last_of_name (number 1 ds) h /\ match_id incoming (fst (snd h)) (snd (snd h)) = Match).
+Proof. intros _. apply route_spec. Qed.
+
+Example specified_instance :
+  specified [(bos "alpha", bos "1.2.0"); (bos "beta", bos "2.0.5")] (bos "/alpha/1.0.0").
+Proof. intros d [<-|[<-|[]]]; vm_compute; discriminate. Qed.
